@@ -473,6 +473,16 @@ def build_prim(spec):
         geo = [sg.Polygon(o, hs) for o, hs in polys]
         reg = R.PolygonalRegion(polygon=geo[0] if len(geo) == 1 else sg.MultiPolygon(geo), z=z)
         return reg, M.PolygonS(polys, z), dict(k=2, post=0, branches=None)
+    if k == "footprint":
+        polys = spec["polys"]
+        geo = [sg.Polygon(o, hs) for o, hs in polys]
+        geom = geo[0] if len(geo) == 1 else sg.MultiPolygon(geo)
+        if spec.get("via") == "polygon":
+            # the footprint object a polygonal (workspace) region hands out, cached on the region
+            reg = R.PolygonalRegion(polygon=geom, z=spec.get("z", 0.0)).footprint
+        else:
+            reg = R.PolygonalFootprintRegion(geom)
+        return reg, M.PrismS(polys), dict(k=3, post=0, branches=None)
     if k == "circle":
         res = spec.get("res", 32)
         reg = R.CircularRegion(Vector(*spec["c"]), spec["r"], resolution=res)
@@ -538,11 +548,67 @@ def build_prim(spec):
     raise ValueError(k)
 
 
-def build(spec):
-    """-> region, shape, info (info['sig']: stable description of the library objects)"""
+@contextlib.contextmanager
+def _watch_footprint_cache(events):
+    """harness-side observation of PolygonalFootprintRegion.approxBoundFootprint: was the cached
+    bounded prism reused, replaced, or created?"""
+    from scenic.core import regions as R
+
+    orig = R.PolygonalFootprintRegion.approxBoundFootprint
+
+    def watched(self, centerZ, height):
+        before = self._bounded_cache
+        out = orig(self, centerZ, height)
+        events.append("fresh" if before is None else ("reused" if self._bounded_cache is before else "replaced"))
+        return out
+
+    R.PolygonalFootprintRegion.approxBoundFootprint = watched
+    try:
+        yield
+    finally:
+        R.PolygonalFootprintRegion.approxBoundFootprint = orig
+
+
+def _prior(pre, env):
+    """one prior operation / query on already built objects (its result is thrown away)."""
+    from scenic.core.vectors import Vector
+
+    ra = build(pre["a"], env)[0]
+    op = pre["op"]
+    if op in ("intersect", "union", "difference", "intersects"):
+        return getattr(ra, op)(build(pre["b"], env)[0])
+    if op in ("containsPoint", "distanceTo"):
+        return getattr(ra, op)(Vector(*pre["point"]))
+    if op == "attr":
+        return getattr(ra, pre["name"])
+    raise ValueError(op)
+
+
+def build(spec, env=None):
+    """-> region, shape, info (info['sig']: stable description of the library objects).
+    {"k": "ref", "name": n} stands for an object of `env` (built once, shared);
+    {"k": "history", "objects": {n: spec}, "pre": [...], "body": spec}: the objects are built,
+    the prior operations are applied to them, then the body is built from the SAME objects."""
+    if spec["k"] == "ref":
+        return env[spec["name"]]
+    if spec["k"] == "history":
+        env = dict(env or {})
+        for name, sub in spec["objects"].items():
+            env[name] = build(sub, env)
+        events = []
+        with _watch_footprint_cache(events):
+            for pre in spec["pre"]:
+                _prior(pre, env)
+            npre = len(events)
+            reg, shp, info = build(spec["body"], env)
+        info = dict(info)
+        info["sig"] = "history:" + info["sig"]
+        info["cache_events"] = events[npre:]
+        info["cache_events_pre"] = events[:npre]
+        return reg, shp, info
     if spec["k"] in ("union", "intersect", "difference"):
-        ra, sa, ia = build(spec["a"])
-        rb, sb, ib = build(spec["b"])
+        ra, sa, ia = build(spec["a"], env)
+        rb, sb, ib = build(spec["b"], env)
         op = spec["k"]
         reg = getattr(ra, op)(rb)
         shp = M.Comp(op, sa, sb)
@@ -1101,13 +1167,13 @@ def _support(shape, obs, Gs, q, N):
     return dict(tested=int(need.sum()), cells=int(grid.size), uncovered=int(len(empty)), examples=ex)
 
 
-def _own_contains(region, P, kinds):
+def _own_contains(region, P, own_max):
     """the region's own containsPoint on produced points (distance tolerance for curves)."""
     from scenic.core import regions as R
     from scenic.core.vectors import Vector
 
     bad = []
-    stride = max(1, len(P) // OWN_CONTAINS_MAX)
+    stride = max(1, len(P) // own_max)
     for p in P[::stride]:
         v = Vector(*p)
         try:
@@ -1179,6 +1245,11 @@ def run_continuous(item):
         N = par["N_surface"]
     if dim == 3 and any(getattr(pr, "kind", "") == "voxel" for pr in _all_shapes(shape)):
         N = par["N_voxel"]
+    ov = spec.get("params", {}).get(tier, {})  # cheap settings of the (numerous) history cases
+    N, G, q = ov.get("N", N), ov.get("G", G), ov.get("q", q)
+    if "cache_events" in info:
+        out["stats"]["cache_events"] = info["cache_events"]
+        out["stats"]["cache_events_pre"] = info["cache_events_pre"]
     # many-triangle polygons (and unions containing them): bound the number of executions
     ntri = _triangle_count(region)
     if ntri * N * N > par["max_leaves_2d"] and dim == 2:
@@ -1239,8 +1310,9 @@ def run_continuous(item):
     # region but as planar sets when sampling: the differential check is only meaningful when
     # both views coincide
     planar_in_higher = any(isinstance(pr.carrier, M.Plane) for pr in shape.prims()) and not all(isinstance(K, M.Plane) for K in shape.carriers())
-    own = None if planar_in_higher else _own_contains(region, pts[cls == 1], None)
-    st["own_contains_checked"] = 0 if own is None else len(pts[cls == 1][:: max(1, int((cls == 1).sum()) // OWN_CONTAINS_MAX)])
+    own_max = spec.get("params", {}).get(tier, {}).get("own", OWN_CONTAINS_MAX)
+    own = None if planar_in_higher else _own_contains(region, pts[cls == 1], own_max)
+    st["own_contains_checked"] = 0 if own is None else len(pts[cls == 1][:: max(1, int((cls == 1).sum()) // own_max)])
     if own:
         viol(f"own-containsPoint-false:{sig}", f"{len(own)} produced member points are rejected by the region's own containsPoint, e.g. {own[0]}")
     # ---- (b), (c)
@@ -1275,7 +1347,7 @@ def run_continuous(item):
         st["density_cover"] = den.get("cover")
         if den["bad"] and not res["bad"] and not res["atoms_bad"]:
             viol(f"nonuniform:{sig}", f"density test: {den['bad']} (N={N})")
-        sup = _support(shape, obs, par["Gs"][dim], par["qs"][dim], N)
+        sup = _support(shape, obs, ov.get("Gs", par["Gs"][dim]), ov.get("qs", par["qs"][dim]), N)
         st["support_tested"] = sup["tested"]
         st["support_cells"] = sup["cells"]
         if sup["uncovered"]:
@@ -1309,6 +1381,10 @@ def _all_shapes(shape):
 
 
 def _spec_sig(spec):
+    if spec["k"] == "history":
+        return "history:" + _spec_sig(spec["body"])
+    if spec["k"] == "ref":
+        return spec["name"]
     if spec["k"] in ("union", "intersect", "difference"):
         return f"{spec['k']}({_spec_sig(spec['a'])},{_spec_sig(spec['b'])})"
     return spec["k"]
@@ -1651,6 +1727,118 @@ def continuous_cases(tier):
     return cases
 
 
+# ------------------------------------------------------------------------------------------
+# history: compositions whose operand objects have already served other operations
+# ------------------------------------------------------------------------------------------
+FP_POLY = [([(-0.6, -0.7), (1.15, -0.8), (0.85, 2.7), (-0.7, 2.5)], [])]  # covers about half of the mesh
+HBOX_DIMS, HBOX_Z0 = (2.2, 2.6, 1.8), 0.5
+
+
+def _hbox(z, kind="box"):
+    if kind == "lmesh":
+        return dict(k="lmesh", pos=(1.0, 1.0, z), dims=HBOX_DIMS, ypr=(0.3, 0, 0))
+    return dict(k="box", pos=(1.0, 1.0, z), dims=HBOX_DIMS, ypr=(0.3, 0, 0))
+
+
+def _slab_placements():
+    """Heights for partner meshes relative to the bounded prism a footprint caches when it first
+    meets the mesh at HBOX_Z0.  approxBoundFootprint is asked for the mesh's z-range plus 1 and
+    caches a prism 100 * max(1, centre) times as tall around the centre (used for placement
+    only; what the compositions must be is decided by the oracle)."""
+    h = HBOX_DIMS[2] + 1
+    half = 100 * max(1, HBOX_Z0) * h / 2
+    return {
+        "base": HBOX_Z0,
+        "low": HBOX_Z0 - half / 2,
+        "high": HBOX_Z0 + half / 2,
+        "top": HBOX_Z0 + half,  # straddles the top of the cached prism
+        "bottom": HBOX_Z0 - half,  # straddles the bottom
+        "far": HBOX_Z0 - half - 2 * half + 20.5,  # entirely below it
+    }
+
+
+def history_cases(tier):
+    """Model-checking style: the composition is built from a footprint object that is not in its
+    initial state.  All sequences of <= 2 (quick: <= 1) prior mesh operations with the partner
+    mesh low / high / straddling top / straddling bottom / far relative to the cached prism, then
+    mesh & footprint or mesh - footprint with the SAME footprint object and the mesh at each of
+    these heights."""
+    place = _slab_placements()
+    names = list(place)
+    seqs = [()] + [(a,) for a in names]
+    if tier == "thorough":
+        seqs += [(a, b) for a in names for b in names]
+    small = {"quick": dict(N=6, G=2, q=6, Gs=2, qs=8, own=40), "thorough": dict(N=12, G=4, q=6, Gs=4, qs=6, own=100)}
+    cases = []
+    n = 0
+    for seq in seqs:
+        for fin in names:
+            ops = ("intersect", "difference") if tier == "thorough" else (("intersect", "difference")[n % 2],)
+            for op in ops:
+                via = "polygon" if n % 3 == 2 else "direct"
+                kind = "lmesh" if (tier == "thorough" and n % 5 == 4) else "box"
+                pre = [dict(op=("intersect", "difference")[(i + n) % 2], a=_hbox(place[pl]), b=dict(k="ref", name="fp")) for i, pl in enumerate(seq)]
+                spec = dict(
+                    k="history",
+                    objects={"fp": dict(k="footprint", polys=FP_POLY, via=via)},
+                    pre=pre,
+                    body=_c(op, _hbox(place[fin], kind), dict(k="ref", name="fp")),
+                    params=small,
+                )
+                cases.append((f"history:{'>'.join(seq) or 'none'}=>{op}@{fin}", spec))
+                n += 1
+    # other objects with internal state: operands that have already been sliced, tested for
+    # containment, converted or intersected before the sampled composition is built
+    P = {k: v[0] for k, v in PRIMS.items()}
+    ref = lambda nm: dict(k="ref", name=nm)
+    extra = [
+        (
+            "history:box-sliced-and-queried=>box&lsurf",
+            dict(
+                k="history",
+                objects={"box": PRIMS["box"][1], "surf": P["lsurf"]},
+                pre=[
+                    dict(op="containsPoint", a=ref("box"), point=(0.5, 1.2, 0.4)),
+                    dict(op="intersect", a=ref("box"), b=_at_z(P["circle"], 0.3137)),
+                    dict(op="intersects", a=ref("box"), b=P["spheroid"]),
+                    dict(op="attr", a=ref("surf"), name="boundingPolygon"),
+                    dict(op="distanceTo", a=ref("surf"), point=(0.1, 0.2, 0.3)),
+                ],
+                body=_c("intersect", ref("box"), ref("surf")),
+            ),
+        ),
+        (
+            "history:polygon-sampled-data-and-footprint=>polygon-circle",
+            dict(
+                k="history",
+                objects={"poly": P["polygon"], "circ": _res(PRIMS["circle"][1], 6)},
+                pre=[
+                    dict(op="attr", a=ref("poly"), name="_samplingData"),
+                    dict(op="attr", a=ref("poly"), name="footprint"),
+                    dict(op="intersect", a=ref("poly"), b=P["rect"]),
+                    dict(op="containsPoint", a=ref("circ"), point=(0.6, 1.4, 0.0)),
+                ],
+                body=_c("difference", ref("poly"), ref("circ")),
+            ),
+        ),
+        (
+            "history:voxel-kdtree-and-mesh=>spheroid&voxel",
+            dict(
+                k="history",
+                objects={"vox": P["voxel"], "sph": P["spheroid"]},
+                pre=[
+                    dict(op="containsPoint", a=ref("vox"), point=(0.5, 0.5, 0.5)),
+                    dict(op="attr", a=ref("vox"), name="kdTree"),
+                    dict(op="attr", a=ref("sph"), name="num_samples"),
+                    dict(op="difference", a=ref("sph"), b=PRIMS["box"][1]),
+                ],
+                body=_c("intersect", ref("sph"), ref("vox")),
+            ),
+        ),
+    ]
+    return cases + (extra if tier == "thorough" else extra[1:2])
+
+
 PS_A = [
     (0.2, 0.3, 0.0),
     (1.0, 1.1, 0.0),
@@ -1722,12 +1910,14 @@ def run(ctx):
     seam_selftest()
     tier = ctx.tier
     items = [("continuous", n, s, tier) for n, s in continuous_cases(tier)]
+    items += [("continuous", n, s, tier) for n, s in history_cases(tier)]
     items += [("discrete", n, s, tier) for n, s in discrete_cases(tier)]
     # heavy (3-D) first so that the pool drains evenly; VERIF_SEED rotates the order
     items = ctx.rotate(items)
     tot = dict(leaves=0, discrete_exec=0, touching=0, cells=0, density=0, support=0, own=0, members=0)
     excluded, nontrivial, samples, widths, spreads = [], 0, [], [], []
     judged_cases = 0
+    cache = dict(fresh=0, reused=0, replaced=0, history_cases=0)
     per_kind = {}
     slow = []
     for r in ctx.pmap(_run_item, items, chunksize=1):
@@ -1750,6 +1940,10 @@ def run(ctx):
             if st.get("executions"):
                 judged_cases += 1
         else:
+            if "cache_events" in st:
+                cache["history_cases"] += 1
+                for ev in st["cache_events"]:
+                    cache[ev] += 1
             tot["leaves"] += st.get("leaves", 0)
             tot["touching"] += st.get("touching", 0)
             tot["cells"] += st.get("judged", 0) or 0
@@ -1779,13 +1973,17 @@ def run(ctx):
         raise HarnessError(f"vacuous run: {tot}")
     if nontrivial < 2:
         raise HarnessError("vacuous run: no sampler with branches or rejection")
+    if cache["reused"] == 0 or cache["replaced"] == 0 or cache["fresh"] == 0:
+        raise HarnessError(f"vacuous history family: footprint cache events of the sampled compositions {cache}")
     par = TIER[tier]
     ctx.cov.update(
         evaluations=tot["leaves"] + tot["discrete_exec"],
         distinct_nontrivial=nontrivial,
         rule="cases = region kinds x parameter sets and their pairwise compositions (tier list); each case: every RNG outcome of "
         "uniformPointInner (discrete: exact law; continuous: complete N^k midpoint lattice x every discrete branch with exact weight, one "
-        "attempt). non-trivial = sampler with >=2 discrete branches or with rejection / retry, or discrete composition that removes points",
+        "attempt). history family: the same footprint object first serves every sequence of <=2 (quick <=1) mesh operations with the partner "
+        "low / high / straddling top / straddling bottom / far relative to its cached prism, then the sampled composition is built from it. "
+        "non-trivial = sampler with >=2 discrete branches or with rejection / retry, or discrete composition that removes points",
         samples=samples,
         cases=len(items),
         cases_judged=judged_cases,
@@ -1797,6 +1995,7 @@ def run(ctx):
         own_containsPoint_calls=tot["own"],
         skipped_touching=tot["touching"],
         empty_compositions_agreed=tot.get("empty_agree", 0),
+        history_footprint_cache=cache,
         excluded=excluded[:60],
         excluded_count=len(excluded),
         library_region_kinds=per_kind,
